@@ -364,6 +364,11 @@ def main():
             # leaves the property unchecked
             broken.append("harness does not build against /repo: " + first_error(out))
         else:
+            # corpus first: cases kept from earlier failures / known-finding witnesses (seed, tier, cases, index)
+            cp = os.path.join(ROOT, "corpus", pid + ".json")
+            if os.path.exists(cp) and only is None:
+                for n_c, ent in enumerate(json.load(open(cp))):
+                    runs.append(run_cases(cfg, ent["seed"], ent["cases"], ent["tier"], "corpus%d" % n_c, log, only=ent["index"]))
             r = run_cases(cfg, seed, ncases, tier, tier, log, only=only)
             runs.append(r)
             if tier == "thorough" and cfg.get("release_too") and "error" not in r:
